@@ -8,7 +8,7 @@ from hypothesis.stateful import RuleBasedStateMachine, initialize, precondition,
 from hgv import gen
 from hgv.runner import Result, Viol
 from hgv.schedmodel import Pending, Walk
-from hgv.worker import HarnessError
+from hgv.worker import HarnessError, Rejected
 
 ID = "C18"
 RULE = ("Two generators. (unit) operation sequences schedule(abs|rel, tag?) / un_schedule(tag?) / pop_tag / reset / advance at chosen, "
@@ -161,7 +161,7 @@ def check_graph(case, ctx, res):
         res.violations.append(Viol("engine_crash", f"worker died: {resp.get('signal')} {resp.get('stderr', '')[-400:]}"))
         return
     if not resp.get("built"):
-        raise HarnessError(f"C18 generator produced a program the tree rejects: {resp.get('error')}")
+        raise Rejected(f"C18 generator produced a program the tree rejects: {resp.get('error')}")
     if resp.get("error"):
         res.violations.append(Viol("run_failed", f"run() threw on a valid program: {resp['error']}"))
     w = Walk(prog, resp, check_queries=True).run()
